@@ -145,6 +145,8 @@ impl<'a> Interpreter<'a> {
         let mut stack = InterpStack::new(self);
 
         let count = self.depth.inc();
+        #[cfg(rscel_verif)]
+        let _vg = crate::verif::FrameGuard::enter(count.count(), || prog.iter().cloned().collect());
 
         if count.count() > 32 {
             return Err(CelError::runtime("Max call depth excceded"));
@@ -153,6 +155,23 @@ impl<'a> Interpreter<'a> {
         while pc < prog.len() {
             let oldpc = pc;
             pc += 1;
+            #[cfg(rscel_verif)]
+            if _vg.on() {
+                crate::verif::emit(crate::verif::Event::Step {
+                    frame: _vg.id(),
+                    pc: oldpc,
+                    stack: stack
+                        .stack
+                        .iter()
+                        .map(|v| match v {
+                            CelStackValue::Value(v) => crate::verif::StackItem::Value(v.clone()),
+                            CelStackValue::BoundCall { value, .. } => {
+                                crate::verif::StackItem::BoundCall(value.clone())
+                            }
+                        })
+                        .collect(),
+                });
+            }
             match &prog[oldpc] {
                 ByteCode::Push(val) => stack.push_val(val.clone()),
                 ByteCode::Pop => {
